@@ -10,7 +10,7 @@ ID = "C11"
 PROPERTIES_V = "theories/Properties/C11.v"
 CASE_IMPORTS = K.CASE_IMPORTS
 ALLOWED_AXIOMS: list = []
-REFUTED: list = []
+REFUTED = ["C11_repoint_first_variant_refuted (a variant of save_as that re-points _h5file before the copy -- not the code)"]
 PARTIAL = [
     "whole property: 'no HDF5 handle stays open' and 'the file is valid and can be opened again' are HDF5 facts observed by the "
     "oracle (h5py.h5f.get_obj_count, re-open from a second Workspace), not proved",
@@ -53,7 +53,9 @@ LEVEL_TEXT = (
     "swallowed (given that the final save does not itself raise), every operation that needs the file raises the closed-file "
     "error afterwards and changes nothing, close+open restores a handle in the constructor's mode on the content left by the "
     "close, and the log of writer routines of the completed operations is in the file in order (append-only; partial: the log "
-    "is as far as the model carries 'content'). PARTIAL BY NATURE: that no HDF5 handle stays open and that the file re-opens "
+    "is as far as the model carries 'content'). save_as failures: the code's order (copy, then re-point _h5file) keeps the "
+    "pointer valid and open() succeeds (theorem on save_as_detail; the re-point-first variant is refuted); "
+    "C11_failed_save_as_recoverable is definitional on the op SaveAsFail. PARTIAL BY NATURE: that no HDF5 handle stays open and that the file re-opens "
     "with every completed operation's effect is observed on the implementation (h5py open-file count, second Workspace, value "
     "comparison), not proved. Model and code are compared per case inside Coq; the call-site table is regenerated every run."
 )
@@ -337,7 +339,11 @@ def drive_save_fault(case, work):
         out["ncat"] = iodrive.n_concatenators(ws)
         out["h5file_before"] = "memory" if case["src"] == "memory" else "disk"
         # 1. the failing save_as
+        before = ws.h5file
         d = iodrive.call_traced(lambda: ws.save_as(bad), ws)
+        after = ws.h5file
+        out["ptr_valid"] = (after is before) if case["src"] == "memory" else (str(after) == str(before) and os.path.exists(str(after)))
+        del before, after
         out["fail"] = d
         out["fail_exc"] = d["exc"]
         out["handle_after_fail"] = iotrace.handle_state(ws)
@@ -1226,9 +1232,11 @@ def case_term(case, obs):
             hs.append(K.c_handle(h))
             sites += rec["calls"]
             log += rec["entries"]
-        return ("agree_run %s %s false %s %s %s %s %s && sites_ok IOT %s"
-                % (K.c_handle(obs["handle0"]), K.MODES[obs["ctor_mode"]], cnat(obs.get("ncat", 0)), clist(ops), clist(outs), clist(hs),
-                   K.c_log(log), K.c_sites(sites)))
+        fpoint = "FailCopy" if case["fault"] == "missing_dir" else "FailChecks"
+        return ("agree_run_m %s %s %s false %s %s %s %s %s && sites_ok IOT %s && agree_sa %s %s %s"
+                % (cbool(case["src"] == "memory"), K.c_handle(obs["handle0"]), K.MODES[obs["ctor_mode"]], cnat(obs.get("ncat", 0)),
+                   clist(ops), clist(outs), clist(hs), K.c_log(log), K.c_sites(sites),
+                   fpoint, cbool(bool(obs.get("ptr_valid"))), cbool(obs["reopen"]["exc"] is None)))
     if case["kind"] == "mem_dh":
         ops, outs, hs, sites, log = [], [], [], [], []
         for rec in obs["ops"]:
@@ -1244,10 +1252,10 @@ def case_term(case, obs):
             k = len(ops) if case["end"] == "with_ok" else len(ops)
             opsx = ops + (["(Calls [])"] if case["end"] == "with_exc" else [])
             oe = "(Some EInjected)" if obs["exc"] == "Injected" else "None"
-            return ("agree_with %s %s false %s %s %s %s %s %s && sites_ok IOT %s"
+            return ("agree_with_m true %s %s false %s %s %s %s %s %s && sites_ok IOT %s"
                     % (h0, dm, nc, clist(opsx), cnat(k), oe, K.c_handle(obs["handle_after"]), K.c_log(log), K.c_sites(sites)))
         endop = "Close" if case["end"] == "close" else "SaveAs"
-        return ("agree_run %s %s false %s %s %s %s %s && sites_ok IOT %s"
+        return ("agree_run_m true %s %s false %s %s %s %s %s && sites_ok IOT %s"
                 % (h0, dm, nc, clist(ops + [endop]), clist(outs + [K.c_err(obs["exc"], obs["end"]["calls"])]),
                    clist(hs + [K.c_handle(obs["handle_after"])]), K.c_log(log), K.c_sites(sites)))
     if case["kind"] == "after_close":
@@ -1366,6 +1374,9 @@ def oracle(case, obs):
             return fails
         if obs["handle_after_fail"] not in ("closed",) and obs["fail_exc"] is not None:
             pass      # staying open would be acceptable too; what matters is that the content is reachable
+        if obs.get("ptr_valid") is False:
+            fails.append({"key": "h5file-repointed-by-failed-save_as",
+                          "what": f"{tag}: after the failed save_as Workspace.h5file no longer names the source that holds the content"})
         if obs["reopen"]["exc"] is not None:
             fails.append({"key": "not-reopenable-after-failed-save_as",
                           "what": f"{tag}: after the failed save_as ({obs['fail_exc']}) ws.open() raises {obs['reopen']['exc']}: {obs['reopen']['msg']}"})
